@@ -240,6 +240,11 @@ func doSynth(ctx *hx.Ctx, sc *SynthCase) {
 		return
 	}
 	class, summary, found := runSynth(ctx, sc)
+	if strings.HasSuffix(class, "-hang") {
+		// a stall (machine load, a lost wake-up) is not a hang of the code: the case must hang twice
+		ctx.Cov.Count("timeout_retried")
+		class, summary, found = runSynth(ctx, sc)
+	}
 	ctx.Cov.Case(fmt.Sprintf("synth %d %d %v %v", sc.Head, sc.L, sc.Flips, sc.Fails), sc.Head >= 4, nil)
 	ctx.Cov.Bucket("synth_head", int(sc.Head))
 	switch {
@@ -250,12 +255,14 @@ func doSynth(ctx *hx.Ctx, sc *SynthCase) {
 	default:
 		ctx.Cov.Count("synth_monotone")
 	}
-	if class != "" && !reported(ctx, class) {
-		if strings.HasSuffix(class, "-hang") {
-			hangs++
+	if strings.HasSuffix(class, "-hang") {
+		hangs++ // counted even when the class was reported before: after two hangs the sync cases stop
+		if !reported(ctx, class) {
 			ctx.Violation(class, summary, sc, found)
-			return
 		}
+		return
+	}
+	if class != "" && !reported(ctx, class) {
 		// shrink: smaller head with the same relative position of L
 		best := *sc
 		for best.Head > 1 {
